@@ -15,7 +15,11 @@
 (* m = TRUE marks a safe (Markup) string.  "Escaped exactly once" and      *)
 (* "never unescaped" are then predicates on segments (C15, C16).           *)
 (*                                                                         *)
-(* A result that the documentation does not determine (float arithmetic,   *)
+(* Floats are the dyadic rationals n / 2^e with small n and e <= 6 (0.5,   *)
+(* 2.5, -6.25 ...): on these IEEE arithmetic is exact, so + - * / // % **  *)
+(* and repr() are determined; anything that leaves the set (1/3, overflow, *)
+(* negative zero) is EXCLUDED.                                             *)
+(* A result that the documentation does not determine (other floats,       *)
 (* ordering of strings, repr of containers holding strings, ...) is the    *)
 (* error class "EXCLUDED": the harness drops such cases (DESIGN 2.3 rule 3)*)
 (***************************************************************************)
@@ -49,6 +53,79 @@ UKof(v, uk) == IF IsCondElse(v) THEN "default" ELSE uk
 IsNum(v) == v.t \in {"int", "bool"}
 NumOf(v) == IF v.t = "int" THEN v.n ELSE IF v.b THEN 1 ELSE 0
 
+(* -- floats: exact dyadic rationals ------------------------------------------------ *)
+VFloat(n, e) == [t |-> "float", n |-> n, e |-> e]        \* n / 2^e ; n odd or e = 0
+IsReal(v) == v.t \in {"int", "bool", "float"}
+RN(v) == IF v.t = "float" THEN v.n ELSE NumOf(v)
+RE(v) == IF v.t = "float" THEN v.e ELSE 0
+FBound == 30000                                           \* keeps every intermediate inside TLC's 32-bit integers
+Abs(x) == IF x < 0 THEN 0 - x ELSE x
+Max2(a, b) == IF a > b THEN a ELSE b
+RECURSIVE PowN(_, _)
+PowN(a, n) == IF n <= 0 THEN 1 ELSE a * PowN(a, n - 1)
+\* exact halving of an even (possibly negative) number
+Half(n) == IF n >= 0 THEN n \div 2 ELSE 0 - ((0 - n) \div 2)
+Even(n) == Abs(n) % 2 = 0
+RECURSIVE FNorm(_, _)
+FNorm(n, e) == IF n = 0 THEN <<0, 0>> ELSE IF e > 0 /\ Even(n) THEN FNorm(Half(n), e - 1) ELSE <<n, e>>
+MkFloat(n, e) == LET ne == FNorm(n, e) IN
+                 IF Abs(ne[1]) > FBound \/ ne[2] > 6 THEN Err("EXCLUDED") ELSE Ok(VFloat(ne[1], ne[2]))
+FGuard(a, b) == Abs(RN(a)) <= FBound /\ Abs(RN(b)) <= FBound
+FE(a, b) == Max2(RE(a), RE(b))
+FA(a, b) == RN(a) * PowN(2, FE(a, b) - RE(a))             \* a and b in units of 2^-FE(a, b)
+FB(a, b) == RN(b) * PowN(2, FE(a, b) - RE(b))
+RECURSIVE Gcd(_, _), Log2(_), NDigits(_), Zeros(_)
+Gcd(a, b) == IF b = 0 THEN a ELSE Gcd(b, a % b)
+Log2(x) == IF x = 1 THEN 0 ELSE IF x % 2 # 0 THEN -1 ELSE LET r == Log2(x \div 2) IN IF r < 0 THEN -1 ELSE r + 1
+NDigits(x) == IF x < 10 THEN 1 ELSE 1 + NDigits(x \div 10)
+Zeros(k) == IF k <= 0 THEN "" ELSE "0" \o Zeros(k - 1)
+PFloorDiv(a, b) == IF a >= 0 THEN a \div b ELSE 0 - (((0 - a) + b - 1) \div b)      \* floor(a / b), b > 0
+\* a / b as the fraction num / den with den > 0
+FNum(a, b) == LET n0 == RN(a) * PowN(2, RE(b))  d0 == RN(b) * PowN(2, RE(a)) IN IF d0 < 0 THEN 0 - n0 ELSE n0
+FDen(a, b) == Abs(RN(b) * PowN(2, RE(a)))
+FDivide(a, b) ==
+    IF RN(b) = 0 THEN Err("ZeroDivisionError")
+    ELSE IF RN(a) = 0 THEN (IF RN(b) < 0 THEN Err("EXCLUDED") ELSE Ok(VFloat(0, 0)))      \* 0 / -x is -0.0
+    ELSE LET g == Gcd(Abs(FNum(a, b)), FDen(a, b))
+             l == Log2(FDen(a, b) \div g)
+             q == Abs(FNum(a, b)) \div g IN
+         IF l < 0 THEN Err("EXCLUDED") ELSE MkFloat(IF FNum(a, b) < 0 THEN 0 - q ELSE q, l)
+FFloorDivide(a, b) ==
+    IF RN(b) = 0 THEN Err("ZeroDivisionError")
+    ELSE IF RN(a) = 0 THEN (IF RN(b) < 0 THEN Err("EXCLUDED") ELSE Ok(VFloat(0, 0)))
+    ELSE MkFloat(PFloorDiv(FNum(a, b), FDen(a, b)), 0)
+FModulo(a, b) ==
+    IF RN(b) = 0 THEN Err("ZeroDivisionError")
+    ELSE LET A == FA(a, b)  B == FB(a, b)
+             q == IF B > 0 THEN PFloorDiv(A, B) ELSE PFloorDiv(0 - A, 0 - B)
+             r == A - B * q IN
+         IF r = 0 /\ B < 0 THEN Err("EXCLUDED")                          \* a zero remainder takes the divisor's sign: -0.0
+         ELSE MkFloat(r, FE(a, b))
+FMultiply(a, b) ==
+    IF RN(a) * RN(b) = 0 /\ (RN(a) < 0 \/ RN(b) < 0) THEN Err("EXCLUDED")                  \* -0.0
+    ELSE MkFloat(RN(a) * RN(b), RE(a) + RE(b))
+RECURSIVE FPowIt(_, _)
+FPowIt(a, k) == IF k = 0 THEN Ok(VFloat(1, 0))
+                ELSE LET r == FPowIt(a, k - 1) IN
+                     IF ~r.ok THEN r ELSE IF ~FGuard(r.v, a) THEN Err("EXCLUDED") ELSE FMultiply(r.v, a)
+FPower(a, b) ==
+    IF RE(b) # 0 THEN Err("EXCLUDED")                          \* non-integral exponent
+    ELSE IF Abs(RN(b)) > 12 THEN Err("EXCLUDED")
+    ELSE IF RN(b) >= 0 THEN (IF RN(a) = 0 /\ RN(b) > 0 THEN Ok(VFloat(0, 0)) ELSE FPowIt(a, RN(b)))
+    ELSE IF RN(a) = 0 THEN Err("ZeroDivisionError")
+    ELSE LET p == FPowIt(a, 0 - RN(b)) IN
+         IF ~p.ok THEN p ELSE IF ~FGuard(p.v, p.v) THEN Err("EXCLUDED") ELSE FDivide(VInt(1), p.v)
+FloatRepr(n, e) ==
+    LET a == Abs(n)  p == PowN(2, e)  ip == a \div p  fr == a % p
+        sign == IF n < 0 THEN "-" ELSE "" IN
+    IF e = 0 THEN sign \o ToString(ip) \o ".0"
+    ELSE LET d == fr * PowN(5, e) IN sign \o ToString(ip) \o "." \o Zeros(e - NDigits(d)) \o ToString(d)
+FCmp(op, a, b) ==
+    LET x == FA(a, b)  y == FB(a, b) IN
+    CASE op = "lt" -> x < y [] op = "lteq" -> x <= y [] op = "gt" -> x > y [] op = "gteq" -> x >= y [] op = "eq" -> x = y
+\* int(x): truncation toward zero
+FTrunc(v) == LET a == Abs(RN(v)) \div PowN(2, RE(v)) IN IF RN(v) < 0 THEN 0 - a ELSE a
+
 \* normalise segments: drop empty text, merge adjacent unescaped segments of one origin
 RECURSIVE NormSegs(_)
 NormSegs(s) ==
@@ -71,6 +148,7 @@ EscSegs(s) == [i \in 1..Len(s) |-> Seg(s[i].a, s[i].e + 1, s[i].o)]
 \* returns Ok(VBool) or Err for strict undefined
 Truth(v, undefKind) ==
     CASE v.t = "int" -> Ok(VBool(v.n # 0))
+      [] v.t = "float" -> Ok(VBool(v.n # 0))
       [] v.t = "bool" -> Ok(v)
       [] v.t = "none" -> Ok(VBool(FALSE))
       [] v.t = "str" -> Ok(VBool(NormSegs(v.s) # <<>>))
@@ -85,6 +163,7 @@ RECURSIVE PyEq(_, _)
 B3(b) == IF b THEN "T" ELSE "F"
 PyEq(a, b) ==
     IF IsNum(a) /\ IsNum(b) THEN B3(NumOf(a) = NumOf(b))
+    ELSE IF IsReal(a) /\ IsReal(b) THEN (IF Abs(RN(a)) > 1000000 \/ Abs(RN(b)) > 1000000 THEN "?" ELSE B3(FCmp("eq", a, b)))
     ELSE IF a.t # b.t THEN "F"
     ELSE CASE a.t = "none" -> "T"
            [] a.t = "str" ->
@@ -105,6 +184,7 @@ RECURSIVE ReprScalar(_)
 \* repr() of values whose repr contains no quoted text: Ok(text) or "?"
 ReprScalar(v) ==
     CASE v.t = "int" -> ToString(v.n)
+      [] v.t = "float" -> FloatRepr(v.n, v.e)
       [] v.t = "bool" -> IF v.b THEN "True" ELSE "False"
       [] v.t = "none" -> "None"
       [] v.t = "list" ->
@@ -121,7 +201,7 @@ ReprScalar(v) ==
 \* str(v) as a string value (for output, ~, join, |string)
 ToStr(v, undefKind) ==
     CASE v.t = "str" -> Ok(v)
-      [] v.t \in {"int", "bool", "none"} -> Ok(VStr(<<Seg(ReprScalar(v), 0, "num")>>, FALSE))
+      [] v.t \in {"int", "bool", "none", "float"} -> Ok(VStr(<<Seg(ReprScalar(v), 0, "num")>>, FALSE))
       [] v.t = "list" ->
            IF ReprScalar(v) = "?" THEN Err("EXCLUDED")
            ELSE Ok(VStr(<<Seg(ReprScalar(v), 0, "num")>>, FALSE))
@@ -183,6 +263,16 @@ BinOp(op, a, b) ==
     \* printf-style formatting is str's own operator and is not modelled (also with an undefined operand)
     ELSE IF a.t = "str" /\ op = "%" THEN Err("EXCLUDED")
     ELSE IF a.t = "undef" \/ b.t = "undef" THEN Err("UndefinedError")
+    ELSE IF IsReal(a) /\ IsReal(b) /\ (a.t = "float" \/ b.t = "float" \/ op = "/" \/ (op = "**" /\ NumOf(b) < 0)) THEN
+        \* float arithmetic (true division and negative powers of integers give floats too)
+        IF ~FGuard(a, b) THEN Err("EXCLUDED")
+        ELSE CASE op = "+" -> MkFloat(FA(a, b) + FB(a, b), FE(a, b))
+               [] op = "-" -> MkFloat(FA(a, b) - FB(a, b), FE(a, b))
+               [] op = "*" -> FMultiply(a, b)
+               [] op = "/" -> FDivide(a, b)
+               [] op = "//" -> FFloorDivide(a, b)
+               [] op = "%" -> FModulo(a, b)
+               [] op = "**" -> FPower(a, b)
     ELSE IF IsNum(a) /\ IsNum(b) THEN
         LET x == NumOf(a)  y == NumOf(b) IN
         CASE op = "+" -> Ok(VInt(x + y))
@@ -190,7 +280,6 @@ BinOp(op, a, b) ==
           [] op = "*" -> Ok(VInt(x * y))
           [] op = "//" -> IF y = 0 THEN Err("ZeroDivisionError") ELSE Ok(VInt(FloorDiv(x, y)))
           [] op = "%" -> IF y = 0 THEN Err("ZeroDivisionError") ELSE Ok(VInt(PyMod(x, y)))
-          [] op = "/" -> IF y = 0 THEN Err("ZeroDivisionError") ELSE Err("EXCLUDED")
           [] op = "**" -> IF y < 0 THEN (IF x = 0 THEN Err("ZeroDivisionError") ELSE Err("EXCLUDED"))
                           ELSE IF y > 6 THEN Err("EXCLUDED") ELSE Ok(VInt(Pow(x, y)))
     ELSE IF a.t = "str" /\ b.t = "str" THEN
@@ -212,12 +301,13 @@ BinOp(op, a, b) ==
             n == IF a.t = "str" THEN NumOf(b) ELSE NumOf(a)
         IN Ok(VStr(Repeat(s.s, n), s.m))
     ELSE IF op = "%" /\ a.t = "str" THEN Err("EXCLUDED")
-    ELSE IF a.t \in {"int", "bool", "none", "str", "list", "dict"} /\ b.t \in {"int", "bool", "none", "str", "list", "dict"}
+    ELSE IF a.t \in {"int", "bool", "none", "str", "list", "dict", "float"} /\ b.t \in {"int", "bool", "none", "str", "list", "dict", "float"}
          THEN Err("TypeError")
     ELSE Err("EXCLUDED")
 
 UnOp(op, a) ==
     IF a.t = "undef" THEN Err("UndefinedError")
+    ELSE IF a.t = "float" THEN (IF op = "-" THEN (IF a.n = 0 THEN Err("EXCLUDED") ELSE Ok(VFloat(0 - a.n, a.e))) ELSE Ok(a))
     ELSE IF IsNum(a) THEN Ok(VInt(IF op = "-" THEN 0 - NumOf(a) ELSE NumOf(a)))
     ELSE IF a.t \in {"none", "str", "list", "dict"} THEN Err("TypeError")
     ELSE Err("EXCLUDED")
@@ -237,7 +327,7 @@ TriNot(r) == IF r = "?" THEN Err("EXCLUDED") ELSE Ok(VBool(r = "F"))
 
 \* (a non-strict undefined is hashable; strict undefined comparisons are handled before)
 RECURSIVE Hashable(_)
-Hashable(v) == v.t \in {"int", "bool", "none", "str", "undef"}
+Hashable(v) == v.t \in {"int", "bool", "none", "str", "undef", "float"}
                \/ (v.t = "list" /\ IsRange(v) /\ ~IsView(v))
                \/ (v.t = "list" /\ ~IsRange(v) /\ v.tup /\ \A i \in 1..Len(v.v) : Hashable(v.v[i]))
 
@@ -260,16 +350,18 @@ CmpOp(op, a, b, uk) ==
                LET x == NumOf(a)  y == NumOf(b) IN
                Ok(VBool(CASE op = "lt" -> x < y [] op = "lteq" -> x <= y
                           [] op = "gt" -> x > y [] op = "gteq" -> x >= y))
+           ELSE IF IsReal(a) /\ IsReal(b) THEN
+               (IF Abs(RN(a)) > 1000000 \/ Abs(RN(b)) > 1000000 THEN Err("EXCLUDED") ELSE Ok(VBool(FCmp(op, a, b))))
            ELSE IF a.t = b.t /\ a.t \in {"str", "list"} THEN Err("EXCLUDED")
-           ELSE IF a.t \in {"int", "bool", "none", "str", "list", "dict"}
-                   /\ b.t \in {"int", "bool", "none", "str", "list", "dict"} THEN Err("TypeError")
+           ELSE IF a.t \in {"int", "bool", "none", "str", "list", "dict", "float"}
+                   /\ b.t \in {"int", "bool", "none", "str", "list", "dict", "float"} THEN Err("TypeError")
            ELSE Err("EXCLUDED")
       [] op \in {"in", "notin"} ->
            LET r == CASE b.t = "list" -> InSeqEq(a, b.v)
                       [] b.t = "dict" -> IF Hashable(a) THEN InSeqEq(a, b.k) ELSE "E"
                       [] b.t = "undef" -> IF uk = "strict" THEN "U" ELSE "F"
                       [] b.t = "str" -> IF a.t = "str" THEN "?" ELSE "E"
-                      [] b.t \in {"int", "bool", "none"} -> "E"
+                      [] b.t \in {"int", "bool", "none", "float"} -> "E"
                       [] OTHER -> "?"
            IN IF r = "E" THEN Err("TypeError")
               ELSE IF r = "U" THEN Err("UndefinedError")
